@@ -168,7 +168,7 @@ end
 
 def fsOf (p : Prog) : FS := p.map fun f => (f.name, importsOfBody f.body)
 
-def Prog.get? (p : Prog) (name : String) : Option Body :=
+def progGet? (p : Prog) (name : String) : Option Body :=
   match p.find? (·.name == name) with
   | some f => some f.body
   | none => none
@@ -190,7 +190,7 @@ def inlineVal : Nat → Prog → List String → Val → Except InlErr Val
     match push stack raw with
     | .cycle _ => .error .cycle
     | .pushed stack' p =>
-      match files.get? p with
+      match progGet? files p with
       | none => .error (.missing p)
       | some content => do pure (.map (← inlineBody n files stack' content))
   | _ + 1, _, _, v => pure v
@@ -202,7 +202,7 @@ def inlineBody : Nat → Prog → List String → List Stmt → Except InlErr (L
     match push stack raw with
     | .cycle _ => .error .cycle
     | .pushed stack' p =>
-      match files.get? p with
+      match progGet? files p with
       | none => .error (.missing p)
       | some content => do
         let a ← inlineBody n files stack' content
